@@ -257,6 +257,14 @@ func runWriterHistory(c *WriterCase, cv *cov, hooks *writerHooks) (v *evid.Viola
 						return
 					}
 					failed = sink.Err()
+					// nothing of this flush interval reached the sink (the failing Write accepted no byte): every
+					// byte is still unflushed, and WrittenLen counts the unflushed bytes
+					if c.Short == 0 {
+						if got := w.WrittenLen(); got != unflushed {
+							v = evid.Failf("step %d: after a Flush that failed (%v) without the sink accepting a byte, WrittenLen=%d; the unflushed byte count is %d", step, failed, got, unflushed)
+							return
+						}
+					}
 					continue
 				}
 				if err != nil {
